@@ -410,6 +410,10 @@ impl Connack {
         }
         let flags = data[cursor];
         cursor += 1;
+        if flags & 0xFE != 0 {
+            // Bits 7-1 of the Connect Acknowledge Flags are reserved and MUST be 0 [MQTT-3.2.2-1]
+            return Err(MqttError::MalformedPacket);
+        }
         let _session = (flags & 0x01) != 0;
         let code = data[cursor];
         cursor += 1;
